@@ -75,6 +75,8 @@ TAddOut ==
           /\ ChildDone(st))
   /\ AddOutFlags
 
+\* the driver touches a long-lived resource from outside any rerunner while everything is idle
+TTouch == IsEv("touch") /\ ForeignTouch(Ev.n) /\ Ev.b1 = inv[Ev.n] /\ Ev.b2 = (out[Ev.n] = {})
 TArm == IsEv("arm") /\ SomeTask(LAMBDA st : Top(st).k = "arm" /\ Top(st).c = Ev.n /\ inv[Ev.n] = Ev.b1 /\ RunArm(st))
 TCtxDone == IsEv("run.ctxdone") /\ SomeTask(LAMBDA st : Top(st).k = "wait" /\ Top(st).r = Ev.r /\ cancelled[Ev.r] /\ RunWait(st))
 TRunLocked == IsEv("run.locked") /\ SomeTask(LAMBDA st : Top(st).k = "lock" /\ Top(st).r = Ev.r /\ stop[Ev.r] = Ev.b1 /\ RunLock(st))
@@ -116,7 +118,7 @@ TSilent == /\ l <= Len(Trace) /\ silent < K /\ silent' = silent + 1 /\ UNCHANGED
            /\ SomeTask(LAMBDA st : \/ (Top(st).k = "wait" /\ ~cancelled[Top(st).r] /\ RunWait(st))
                                     \/ (Top(st).k = "stopc" /\ StopCancel(st)))
 
-TNext == \/ TReset \/ TBump \/ TStrobe \/ TInvMark \/ TInvHandler \/ TRelMark \/ TCleanup \/ TRelUnlink \/ TAddOut
+TNext == \/ TReset \/ TBump \/ TStrobe \/ TInvMark \/ TInvHandler \/ TRelMark \/ TCleanup \/ TRelUnlink \/ TAddOut \/ TTouch
          \/ TArm \/ TCtxDone \/ TRunLocked \/ TCleanCheck \/ TRunCleaned \/ TCacheMiss \/ TCacheHit \/ TCacheSet \/ TTrack \/ TRead
          \/ TPurge \/ TCompFail \/ TRunDone \/ TStopStart \/ TStopCancelled \/ TStopLocked \/ TStopReturned \/ TQuiesce \/ TSilent
 TSpec == TInit /\ [][TNext]_tvars
